@@ -72,6 +72,14 @@ M = [
   "                .filter(|(_, byte)| *byte == b'\\n')", "                .filter(|(_, byte)| *byte == b'\\n' || *byte == b'\\r')", {"C13": 1}),
  ("benign_line_starts_matches", "crates/liwe/src/markdown/reader.rs",
   "                .filter(|(_, byte)| *byte == b'\\n')", "                .filter(|(_, byte)| matches!(byte, b'\\n'))", {"C13": 0}),
+ ("new_patch_copies_keys", "crates/liwe/src/graph.rs",
+  "            metadata: self.metadata.clone(),\n            ..Default::default()", "            metadata: self.metadata.clone(),\n            keys: self.keys.clone(),\n            ..Default::default()", {"C20": 1}),
+ ("link_at_position_box_test", "crates/liwe/src/model/document.rs",
+  "        if self.inline_range().contains(&position) && self.is_link() {", "        let r = self.inline_range();\n        if r.start.line <= position.line && position.line <= r.end.line && r.start.character <= position.character && position.character < r.end.character && self.is_link() {", {"C13": 1}),
+ ("link_at_position_skips_first_child", "crates/liwe/src/model/document.rs",
+  "        self.child_inlines()\n            .iter()\n            .find_map(|child| child.link_at_position(position))\n    }\n}\n\n#[derive(Clone, Copy, PartialEq, Eq, Hash, Debug)]\npub enum LinkType", "        self.child_inlines()\n            .iter()\n            .skip(1)\n            .find_map(|child| child.link_at_position(position))\n    }\n}\n\n#[derive(Clone, Copy, PartialEq, Eq, Hash, Debug)]\npub enum LinkType", {"C13": 2}),
+ ("benign_link_at_position_spelled_out", "crates/liwe/src/model/document.rs",
+  "        if self.inline_range().contains(&position) && self.is_link() {", "        let r = self.inline_range();\n        if self.is_link() && r.start <= position && position < r.end {", {"C13": 0}),
  ("update_key_skips_blank", "crates/liwe/src/graph.rs",
   "        self.from_markdown(key, content, MarkdownReader::new());\n\n        self", "        if !content.is_empty() {\n            self.from_markdown(key, content, MarkdownReader::new());\n        }\n\n        self", {"C20": 1, "C04": 1}),
  # benign refactorings: must not alarm
